@@ -19,9 +19,10 @@ CONSTANTS
   HbFilterDirect = TRUE
   CutAtGE = TRUE
   SendsGraft = TRUE
-  JoinFilterDirect = FALSE
+  BubbleToD = TRUE
+  JoinFilterDirect = TRUE
   GraftNeedsStream = FALSE
-  AllowDirectInFanout = FALSE
+  AllowDirectInFanout = TRUE
   AllowHalf = FALSE
 INVARIANT TypeOK
 INVARIANT P_C07_Shape
